@@ -1,5 +1,5 @@
 INIT TInit
 NEXT TNext
-CONSTANT Big = TRUE
+CONSTANT Big = TRUE Wide = TRUE
 INVARIANT Done
 CHECK_DEADLOCK FALSE
